@@ -1055,6 +1055,79 @@ func c14ObjSuffix(c *Ctx) {
 	// a Bool word on the wire; marking it encoded_in_bitflags makes the codec drop the word
 	// where the flags word sits is declared by FlagIndex(): a struct gets the method as soon as one of its parameters
 	// is conditional - whatever bit it uses (bit 0 included)
+	// a function's result is a type or a vector of it: a decision about how the wrapper represents the result (nil
+	// or a zero literal on the error branch, pointer or value) that looks the element type up in the schema tables
+	// must know which of the two it is
+	r.Rule("R14.V", "in generateMethodFunction every lookup of the result's element type in the schema tables (Enums, Types, SingleInterfaceTypes) lies behind a test of Response.IsList: what is right for an enum is not right for a vector of enums", 1)
+	if f := c.fn("R14.V", load.GenPkg, "*Generator", "generateMethodFunction"); f != nil {
+		isListTest := func(i *ssa.If) bool {
+			v := unNot(i.Cond)
+			ld, ok := v.(*ssa.UnOp)
+			if !ok {
+				return false
+			}
+			fa, ok := ld.X.(*ssa.FieldAddr)
+			return ok && strings.HasSuffix(an.FieldName(fa.X.Type(), fa.Field), "tlparser.MethodResponse.IsList")
+		}
+		var tests []*ssa.If
+		for _, i := range an.Ifs(f) {
+			if isListTest(i) {
+				tests = append(tests, i)
+			}
+		}
+		n := 0
+		for _, b := range f.Blocks {
+			for _, in := range b.Instrs {
+				lk, ok := in.(*ssa.Lookup)
+				if !ok {
+					continue
+				}
+				tbl := ""
+				if ld, ok := lk.X.(*ssa.UnOp); ok {
+					if fa, ok := ld.X.(*ssa.FieldAddr); ok {
+						tbl = an.FieldName(fa.X.Type(), fa.Field)
+					}
+				}
+				key := ""
+				idx := lk.Index
+				for {
+					if cv, ok := idx.(*ssa.Convert); ok {
+						idx = cv.X
+						continue
+					}
+					if ct, ok := idx.(*ssa.ChangeType); ok {
+						idx = ct.X
+						continue
+					}
+					break
+				}
+				if ld, ok := idx.(*ssa.UnOp); ok {
+					if fa, ok := ld.X.(*ssa.FieldAddr); ok {
+						key = an.FieldName(fa.X.Type(), fa.Field)
+					}
+				}
+				if !strings.Contains(tbl, "internalSchema.") || !strings.HasSuffix(key, "MethodResponse.Type") {
+					continue
+				}
+				n++
+				guarded := false
+				for _, t := range tests {
+					// inside one arm of the test: dominated by that arm's first block, which the other arm
+					// cannot reach (the join block after an if without else is dominated too, but by both ways)
+					for k := 0; k < 2; k++ {
+						arm, other := t.Block().Succs[k], t.Block().Succs[1-k]
+						if t.Block() != b && arm.Dominates(b) && !reachesBlock(other, arm, map[*ssa.BasicBlock]bool{}) {
+							guarded = true
+						}
+					}
+				}
+				r.Check(guarded, "R14.V", sprintf("result-representation:knows-list-ness#%d", n), c.pos(lk.Pos()), "the element type of the result is looked up in "+tbl+" on a path that has not asked whether the result is a vector")
+			}
+		}
+		if n == 0 {
+			r.Hold("R14.V", "result-representation:no-direct-lookup", c.pos(f.Pos()), "generateMethodFunction decides nothing from the schema tables by the element type alone")
+		}
+	}
 	r.Rule("R14.I", "generateStructTypeAndMethods emits FlagIndex() whenever a parameter is conditional: once the true edge of a test of Parameter.IsOptional was taken, the condition guarding the emission evaluates to true", 1)
 	if f := c.fn("R14.I", load.GenPkg, "*Generator", "generateStructTypeAndMethods"); f != nil {
 		// the guard: the If whose true edge dominates the block that names the method
